@@ -10,6 +10,7 @@ From ClapModel Require Import ParseProofs.Actions ParseProofs.ActionsLoop ParseP
 From ClapModel Require Import Derive.DeriveCmd Derive.DeriveArgs Derive.DeriveParse Derive.DeriveUpdate Derive.DeriveAccept Derive.DeriveParseEx.
 From ClapModel Require Import Parse.Validator ParseProofs.Relations ParseProofs.ValidateTotal Derive.DerivePost Derive.DerivePostEx.
 From ClapModel Require Import ParseProofs.Dispatch Derive.LoopInv Derive.DeriveTotal Derive.DeriveTotalEx.
+From ClapModel Require Import ParseProofs.KindSound Derive.DeriveUpdateLine Derive.DeriveUpdateLineEx.
 From Coq Require Import ZArith List.
 Import ListNotations.
 Open Scope N_scope.
@@ -448,3 +449,32 @@ Proof.
   split; [exact TotalEx.exp_value|exact TotalEx.not_guarded].
 Qed.
 Print Assumptions C15_extract_total_argv_nonvacuous.
+
+(** * Round 3: update for ALL argv, "named" = C10's [occurs] (Derive/DeriveUpdateLine.v) *)
+
+(** UPDATE CHANGES ONLY THE FIELDS NAMED ON THE COMMAND LINE -- any line.  For every struct of argument fields whose update
+    command passes clap's assertions, every token list and every field whose argument has no default: if no token of the
+    line names the field's argument (C10's [occurs]: the token's long name / inferred prefix / a character of its short
+    cluster selects the argument in the key map -- lexing and lookup only; a positional counts as named by any token), a
+    successful [try_update_from] leaves the field as it was.  Through C10's invariant [K] ([accepted_faithful]) and C06's
+    [precedence].  (For default-bearing fields the statement is false: [C15_update_frame_argv_refuted].) *)
+Theorem C15_update_unoccurring_untouched : forall d bin toks vs vs' f,
+  fields_only (d_nodes d) = true -> In f (fields_of (d_nodes d)) -> bf_default f = [] ->
+  valid (with_bin (derive_cmd_for_update d) bin) = true ->
+  (forall a, In a (c_args (builtu d bin)) -> a_id a = f_id f -> ~ occurs (builtu d bin) toks a) ->
+  derived_update d vs (bin :: toks) = PValue vs' ->
+  field_at (d_nodes d) vs' (f_id f) = field_at (d_nodes d) vs (f_id f).
+Proof. exact update_unoccurring_untouched. Qed.
+Print Assumptions C15_update_unoccurring_untouched.
+
+(** Non-vacuity: [{vv: false, oo: Some(7), x: ["a"], c: 3}] updated from [--vv -x z] (a separated value, not the printer's
+    spelling): no token names [oo]; the update succeeds and [oo] keeps [Some(7)]. *)
+Theorem C15_update_unoccurring_nonvacuous :
+  (forall a, In a (c_args (builtu ParseEx.d b_prog)) -> a_id a = f_id ParseEx.fo ->
+     ~ occurs (builtu ParseEx.d b_prog) UpdateLineEx.toks a)
+  /\ fields_only (d_nodes ParseEx.d) = true /\ In ParseEx.fo (fields_of (d_nodes ParseEx.d)) /\ bf_default ParseEx.fo = []
+  /\ valid (with_bin (derive_cmd_for_update ParseEx.d) b_prog) = true
+  /\ derived_update ParseEx.d UpdateEx.v0 (b_prog :: UpdateLineEx.toks) = PValue UpdateLineEx.v1
+  /\ field_at (d_nodes ParseEx.d) UpdateLineEx.v1 (f_id ParseEx.fo) = Some (DOpt (Some (SvInt 7%Z))).
+Proof. split; [exact UpdateLineEx.ex_unnamed|exact UpdateLineEx.ex_update_line]. Qed.
+Print Assumptions C15_update_unoccurring_nonvacuous.
